@@ -219,10 +219,19 @@ def gtf_id_errors(path, ref_transcripts=None, ref_genes=None, exon_table=None, l
     return errs, set(gene_recs), set(tr_recs)
 
 
+READ_SETS = {"all": None,
+             "R0": ("k1", "k4", "na", "nd", "ig1", "h1"),
+             "R1": ("k1", "k4", "nb", "ig2", "h2"),
+             "R2": ("k1", "k4", "nc", "ne", "ig1", "ig2")}
+
+
 def pipeline_case(args):
     variant, strategy, iterations, scratch = args
     from vlib import syn, run
-    d = os.path.join(scratch, "p_%s_%s" % (variant, strategy))
+    # iterations: a number (the same reads every time: fixed-point chain) or a history of read-set names, one per iteration
+    history = tuple(iterations) if not isinstance(iterations, int) else ("all",) * iterations
+    iterations = len(history)
+    d = os.path.join(scratch, "p_%s_%s_%s" % (variant, strategy, "".join(history)))
     shutil.rmtree(d, ignore_errors=True)
     w = pipeline_world(variant)
     paths = syn.materialise(w, d)
@@ -231,9 +240,14 @@ def pipeline_case(args):
     ref_exon = {}
     nruns = 0
     novel_total = 0
+    seqs = syn.genome_sequences(w)
     for it in range(iterations):
         out = os.path.join(d, "out%d" % it)
-        argv = ["--output", out, "--reference", paths["ref"], "--bam", paths["bam"], "--data_type", "nanopore",
+        bam = paths["bam"]
+        if READ_SETS[history[it]] is not None:
+            sub = [r for r in w["reads"] if r["name"].split("_")[0] in READ_SETS[history[it]]]
+            bam = syn.write_bam(w, os.path.join(d, "reads_it%d.bam" % it), reads=sub, seqs=seqs)
+        argv = ["--output", out, "--reference", paths["ref"], "--bam", bam, "--data_type", "nanopore",
                 "--prefix", "OUT", "--threads", "1", "--genedb", gtf, "--complete_genedb",
                 "--model_construction_strategy", strategy, "--report_novel_unspliced", "true"]
         rc = run.run_isoquant(argv, paths["home"], os.path.join(d, "o%d.txt" % it))
@@ -276,7 +290,7 @@ def pipeline_case(args):
         gtf = os.path.join(d, "ref_it%d.gtf" % (it + 1))
         shutil.copy(eg, gtf)
     shutil.rmtree(d, ignore_errors=True)
-    return variant, strategy, nruns, novel_total, errs
+    return variant, strategy, nruns, novel_total, [(k, ("reads per iteration %s: " % list(history)) + m) for k, m in errs]
 
 
 def run(ctx):
@@ -291,13 +305,19 @@ def run(ctx):
     for variant in (["base"] if quick else ["base", "extra"]):
         for s in strategies:
             jobs.append((variant, s, 2 if quick else 3, ctx.scratch))
+    # histories: the annotation of iteration i+1 is the extended annotation of iteration i, obtained from ANOTHER read set, so that ids
+    # generated earlier meet novel transcripts of the same loci generated later
+    sets = ("R0", "R1", "R2")
+    for hist in itertools.product(sets, repeat=2 if quick else 3):
+        for s in (["all"] if quick else ["all", "default_ont"]):
+            jobs.append(("extra", s, hist, ctx.scratch))
     nruns = 0
     novel = 0
     for variant, strategy, n, nov, errs in core.pmap(pipeline_case, jobs):
         nruns += n
         novel += nov
         for key, msg in errs:
-            ctx.violation("l2:%s" % key, "world %s strategy %s: %s" % (variant, strategy, msg), {"variant": variant, "strategy": strategy})
+            ctx.violation("l2:%s" % key, "world %s strategy %s: %s" % (variant, strategy, msg), {"variant": variant, "strategy": strategy, "msg": msg[:120]})
     ctx.note("L2 pipeline: %d runs (fixed-point chains), %d novel transcripts inspected" % (nruns, novel))
     ctx.coverage.update({
         "states": states, "transitions": transitions, "traces_validated_against_impl": transitions + nruns,
